@@ -66,7 +66,8 @@ impl From<&Ipv6Packet> for Vec<u8> {
     fn from(ipv6: &Ipv6Packet) -> Self {
         let header = ipv6.header.borrow().clone();
         let mut bytes: Vec<u8> = (&header).into();
-        if let Some(inner) = ipv6.inner.borrow().clone() {
+        // an error object or null cached by a failed parse is not a layer
+        if let Some(inner) = ipv6.inner.borrow().clone().filter(|o| o.is_packet_layer()) {
             let data: Vec<u8> = inner.as_ref().into();
             bytes.extend_from_slice(&data);
         } else {
